@@ -130,7 +130,29 @@ fn verify_verdict(i: &Input) -> Outcome {
     let mut out = vec![0u8; m.len()];
     verdict("crypto_sign_open", want, crypto_sign_open(&mut out, &sm, &pk).is_ok())?;
     let r = dryoc::sign::VecSignedMessage::from_bytes(&sm).and_then(|s| s.verify(&dryoc::sign::PublicKey::from(pk)));
-    verdict("SignedMessage::verify", want, r.is_ok())
+    verdict("SignedMessage::verify", want, r.is_ok())?;
+
+    // the same (sig, m, pk) through the incremental / pre-hashed entry points
+    let want_ph = so::sign_ph_verify(&[m], &sig, &pk);
+    verdict(
+        "crypto_sign_init/update/final_verify (ed25519ph)",
+        want_ph,
+        d_ph_verify(m, &sig, &pk),
+    )?;
+    let split = m.len() / 2;
+    let mut st = crypto_sign_init();
+    crypto_sign_update(&mut st, &m[..split]);
+    crypto_sign_update(&mut st, &m[split..]);
+    verdict(
+        "crypto_sign_init/update/update/final_verify (ed25519ph)",
+        want_ph,
+        crypto_sign_final_verify(st, &sig, &pk).is_ok(),
+    )?;
+    use dryoc::sign::{IncrementalSigner, PublicKey, Signature};
+    let mut verifier = IncrementalSigner::new();
+    verifier.update(&m.to_vec());
+    let r = verifier.verify(&Signature::from(sig), &PublicKey::from(pk));
+    verdict("IncrementalSigner::verify", want_ph, r.is_ok())
 }
 
 fn d_ph_sign(m: &[u8], sk: &[u8; 64]) -> Result<[u8; 64], Fail> {
@@ -323,6 +345,39 @@ pub fn c06(ctx: &mut Ctx) -> Search {
         let mut sig = good;
         sig[..32].copy_from_slice(a);
         ctx.run("verify_small_order", Input::new().b("sig", &sig).b("m", &m).b("pk", &pk))?;
+    }
+
+    // small-order public keys with a well-formed (R, S) = (s*B, s): the
+    // verification equation S*B = R + k*A holds whenever k*A is the identity
+    // (always for A = identity, for 1/2 .. 1/8 of the messages otherwise), so
+    // only the explicit rejection of small-order keys stands in the way -- in
+    // pure mode and in the pre-hashed / incremental mode alike
+    let mut scalars: Vec<[u8; 32]> = Vec::new();
+    for v in [1u8, 2, 3, 8] {
+        let mut sc = [0u8; 32];
+        sc[0] = v;
+        scalars.push(sc);
+    }
+    for _ in 0..2 {
+        let mut sc = ctx.rng.arr::<32>();
+        sc[31] &= 0x0f; // < 2^252 < L
+        scalars.push(sc);
+    }
+    let nmsg = if t { 64 } else { 12 };
+    for sc in &scalars {
+        let rpt = match so::ed25519_base_noclamp(sc) {
+            Some(p) => p,
+            None => continue,
+        };
+        let mut sig = [0u8; 64];
+        sig[..32].copy_from_slice(&rpt);
+        sig[32..].copy_from_slice(sc);
+        for a in &pts {
+            for j in 0..nmsg {
+                let m = ctx.rng.bytes(j % 40);
+                ctx.run("verify_small_order", Input::new().b("sig", &sig).b("m", &m).b("pk", a))?;
+            }
+        }
     }
     Ok(())
 }
